@@ -58,13 +58,17 @@ class ClassShexer(object):
                 msg="Shape drafts built. Sorting constraints...")
         self._sort_shapes()
         log_msg(verbose=verbose,
-                msg="Constraints sorted. Adjusting cardinalities...")
-        self._set_valid_constraints_of_shapes()
-        log_msg(verbose=verbose,
-                msg="Cardinalities adjusted. Cleaning empty shapes if needed...")
+                msg="Constraints sorted. Cleaning empty shapes if needed...")
+        # Empty shapes are removed while the constraints are still plain candidates (one per property, kind and
+        # cardinality). A shape has no constraint at the end iff it has no candidate here, and candidates pointing
+        # to a removed shape are dropped BEFORE the node-kind merge: the merge then falls back to the IRI/BNode
+        # alternatives of that property instead of losing the whole constraint, and it never meets a disjunction.
         self._clean_empty_shapes()
         log_msg(verbose=verbose,
-                msg="No more shapes to clean. {} definitive shapes".format(len(self._shapes_list)))
+                msg="No more shapes to clean. Adjusting cardinalities...")
+        self._set_valid_constraints_of_shapes()
+        log_msg(verbose=verbose,
+                msg="Cardinalities adjusted. {} definitive shapes".format(len(self._shapes_list)))
         return self._shapes_list
 
     def _set_valid_constraints_of_shapes(self):
